@@ -1,4 +1,4 @@
-import ScVerif.C20.GauLemmas
+import ScVerif.C20.GauCount
 /-!
 # C20 — a call only ever commits on a value that passes its own checks (lemmas)
 
@@ -134,4 +134,76 @@ theorem run_commit_checked (store : σ) (now : Int) (progs : List (List (Call σ
     · left; exact h.1
     · right; exact ⟨th, cl, t, rfl, hcur, hck th hmem cl _ hcur, h1⟩
 
+omit [DecidableEq σ] in
+/-- a log is *legal* from `s`: every call in it passes its own checks on the value it is applied to -/
+def Legal : σ → List (Call σ ε × Int) → Prop
+  | _, [] => True
+  | s, p :: rest => p.1.check s = none ∧ Legal (p.1.apply s p.2) rest
+
+/-- one event of a checked configuration: store and number of successful results are unchanged, or one
+call of the configuration, whose checks the store passes, is applied to the store and returns a value -/
+theorem step_oks_checked (c : Cfg σ ε) (hck : CfgChecked c) (ev : Ev) :
+    ((c.step ev).store = c.store ∧ (c.step ev).oks = c.oks) ∨
+    ∃ cl ∈ c.calls, ∃ t, cl.check c.store = none ∧ (c.step ev).store = cl.apply c.store t ∧
+      (c.step ev).oks = c.oks + 1 := by
+  cases ev with
+  | tick d => left; exact ⟨rfl, rfl⟩
+  | step i =>
+    simp only [Cfg.step]
+    cases hth : c.threads[i]? with
+    | none => left; exact ⟨rfl, rfl⟩
+    | some th =>
+      have hmem : th ∈ c.threads := List.mem_of_getElem? hth
+      have hsum := sum_set Thread.oks c.threads i th (threadStep c.store c.now th).2 hth
+      rcases threadStep_oks c.store c.now th with h | ⟨cl, t, hcur, h1, h2⟩
+      · left
+        refine ⟨h.1, ?_⟩
+        simp only [Cfg.oks]
+        omega
+      · right
+        refine ⟨cl, mem_calls_of_mem hmem (by simp [Thread.calls, hcur]), t, hck th hmem cl _ hcur, h1, ?_⟩
+        simp only [Cfg.oks]
+        omega
+
+theorem run_linearizes_legal (sched : List Ev) : ∀ c : Cfg σ ε, CfgChecked c →
+    ∃ log : List (Call σ ε × Int), (∀ p ∈ log, p.1 ∈ c.calls) ∧
+      (c.run sched).store = replay c.store log ∧ Legal c.store log ∧
+      (c.run sched).oks = c.oks + log.length := by
+  induction sched with
+  | nil => intro c _; exact ⟨[], by simp, rfl, trivial, rfl⟩
+  | cons ev rest ih =>
+    intro c hck
+    obtain ⟨log, hmem, hlog, hleg, hcnt⟩ := ih (c.step ev) (step_checked c ev hck)
+    have hmem' : ∀ p ∈ log, p.1 ∈ c.calls := fun p hp => step_calls c ev _ (hmem p hp)
+    rcases step_oks_checked c hck ev with ⟨h, hk⟩ | ⟨cl, hcl, t, hchk, h, hk⟩
+    · refine ⟨log, hmem', by rw [← h]; exact hlog, by rw [← h]; exact hleg, ?_⟩
+      show (Cfg.run (c.step ev) rest).oks = _
+      omega
+    · refine ⟨(cl, t) :: log, ?_, ?_, ?_, ?_⟩
+      · intro p hp
+        rcases List.mem_cons.mp hp with rfl | hp
+        · exact hcl
+        · exact hmem' p hp
+      · show (Cfg.run (c.step ev) rest).store = _
+        rw [hlog, h]; rfl
+      · exact ⟨hchk, by rw [← h]; exact hleg⟩
+      · show (Cfg.run (c.step ev) rest).oks = _
+        simp only [List.length_cons]
+        omega
+
+theorem linearizes_legal (store : σ) (now : Int) (progs : List (List (Call σ ε))) (sched : List Ev) :
+    ∃ log : List (Call σ ε × Int), (∀ p ∈ log, ∃ cs ∈ progs, p.1 ∈ cs) ∧
+      (Cfg.run ⟨store, now, progs.map Thread.ofCalls⟩ sched).store = replay store log ∧
+      Legal store log ∧
+      (Cfg.run ⟨store, now, progs.map Thread.ofCalls⟩ sched).oks = log.length := by
+  obtain ⟨log, hmem, h, hleg, hcnt⟩ := run_linearizes_legal sched
+    (⟨store, now, progs.map Thread.ofCalls⟩ : Cfg σ ε) (init_checked store now progs)
+  refine ⟨log, fun p hp => init_calls store now progs p.1 (hmem p hp), h, hleg, ?_⟩
+  have h0 : ∀ ps : List (List (Call σ ε)), ((ps.map Thread.ofCalls).map Thread.oks).sum = 0 := by
+    intro ps
+    induction ps with
+    | nil => rfl
+    | cons p rest ih => simpa [Thread.oks, Thread.ofCalls] using ih
+  have h1 : (⟨store, now, progs.map Thread.ofCalls⟩ : Cfg σ ε).oks = 0 := h0 progs
+  omega
 end ScVerif.C20.Gau
